@@ -6,6 +6,8 @@
 package racepass
 
 import (
+	"bufio"
+	"io"
 	"context"
 	"encoding/json"
 	"fmt"
@@ -379,6 +381,43 @@ func TestRace_Channel(t *testing.T) {
 			}()
 		}
 		wg.Wait()
+	}
+	// one connection, both ends sending and receiving at the same time (one sender and one receiver per
+	// channel, as the contract allows), with a record beyond 2^24 bytes in each direction
+	for name, f := range framings {
+		ar, bw := io.Pipe()
+		br, aw := io.Pipe()
+		ea, eb := f(bufio.NewReaderSize(ar, 1<<20), aw), f(bufio.NewReaderSize(br, 1<<20), bw) // large reads: fewer hand-offs through the pipe
+		sizes := []int{10, 1<<24 + 9, 300}
+		if name == "Line" || name == "Split" || name == "RawJSON" {
+			sizes = []int{10, 70000, 300}
+		}
+		var wg sync.WaitGroup
+		for _, e := range []channel.Channel{ea, eb} {
+			e := e
+			wg.Add(2)
+			go func() {
+				defer wg.Done()
+				for _, n := range sizes {
+					rec := []byte(`{"k":"` + strings.Repeat("x", n) + `"}`) // an object: encoding/json sees the end of a top-level string only with the next byte
+					if err := e.Send(rec); err != nil {
+						t.Errorf("%s duplex: Send: %v", name, err)
+					}
+				}
+			}()
+			go func() {
+				defer wg.Done()
+				for _, n := range sizes {
+					rec, err := e.Recv()
+					if err != nil || len(rec) != n+8 {
+						t.Errorf("%s duplex: Recv: %d bytes, %v; want %d", name, len(rec), err, n+8)
+					}
+				}
+			}()
+		}
+		wg.Wait()
+		ea.Close()
+		eb.Close()
 	}
 	// the in-memory pair: both directions at once
 	a, b := channel.Direct()
